@@ -88,6 +88,11 @@ pub struct Trace {
     pub parked: bool,
     pub gate_used: bool,
     pub slow_flush_used: bool,
+    /// a stray reply bearing the id of the further request was taken off the transport before
+    /// that request was sent (so it matched no outstanding request when it was read)
+    pub future_id_stray_read_early: bool,
+    /// ... or only afterwards (then it is, for the client, the reply to that request)
+    pub future_id_stray_read_late: bool,
     pub drop_classes: Vec<String>,
     /// request indices whose reply was taken off the transport by a task that was dropped later
     pub consumed_by_dropped: Vec<usize>,
@@ -434,7 +439,13 @@ pub fn run_world(w: &World) -> Result<Trace, String> {
             }
             Act::Stray => {
                 strays_left -= 1;
-                let id = format!("9{:03}", trace.stray_ids.len());
+                // an id nobody asked for: far away, or (every other time) the very id the next
+                // request of the session is going to get
+                let id = if w.arrival.first().is_some_and(|a| a % 2 == 1) {
+                    format!("{}", n + 1 + trace.stray_ids.len())
+                } else {
+                    format!("9{:03}", trace.stray_ids.len())
+                };
                 wire.push(
                     format!(
                         "<rpc-reply xmlns=\"{NS_BASE}\" message-id=\"{id}\"><data><t xmlns=\"urn:verif\">STRAY</t></data></rpc-reply>{MARKER}"
@@ -487,6 +498,26 @@ pub fn run_world(w: &World) -> Result<Trace, String> {
                             }
                         }
                     }
+                }
+            }
+        }
+    }
+    // a stray that bears the id of the further request: when was it read?
+    if let Some(xid) = &extra_id {
+        let sent = wire.sent();
+        let extra_index = sent
+            .iter()
+            .rposition(|m| message_id_lenient(m).as_deref() == Some(xid.as_str()));
+        let st = wire.state.lock().unwrap();
+        for (k, (_, msg)) in st.recv_log.iter().enumerate() {
+            if message_id_lenient(msg).as_deref() == Some(xid.as_str())
+                && String::from_utf8_lossy(msg).contains("STRAY")
+            {
+                let sent_then = st.recv_sent.get(k).copied().unwrap_or(usize::MAX);
+                if extra_index.is_some_and(|x| sent_then <= x) {
+                    trace.future_id_stray_read_early = true;
+                } else {
+                    trace.future_id_stray_read_late = true;
                 }
             }
         }
@@ -661,7 +692,17 @@ fn judge(w: &World, prop_id: &str, obs: &mut Obs) {
                     format!("the request issued after quiescence gave {r:?}; trace: {:?}", trace.log),
                 );
             } else if let Some(Ok(v)) = r {
-                if v != "<t xmlns=\"urn:verif\">tag-extra</t>" {
+                if v.contains("STRAY") && trace.future_id_stray_read_late && !trace.future_id_stray_read_early {
+                    // the server "answered" the request before it was sent, but the client read
+                    // that message only after the request was outstanding: for the client it is
+                    // the reply bearing the message-id of an outstanding request
+                    obs.class("reply-with-a-future-id-read-after-its-request(tolerated)");
+                } else if v.contains("STRAY") {
+                    obs.fail(
+                        "stray-reply-delivered",
+                        format!("the request issued after quiescence was given a reply that had been read off the transport before that request existed: Ok({v:?}); trace: {:?}", trace.log),
+                    );
+                } else if v != "<t xmlns=\"urn:verif\">tag-extra</t>" {
                     obs.fail(
                         "further-request-wrong-result",
                         format!("the request issued after quiescence gave Ok({v:?})"),
